@@ -344,6 +344,9 @@ where
     let outcome = sim_async(spec, StdArc::new(AtomicBool::new(false)), move || {
         let (log, xs, ys, interceptor) = (StdArc::clone(&log2), xs.clone(), ys.clone(), interceptor.clone());
         async move {
+            // bytes travel as soon as they are sent (hook H5): what reaches the corrupt helper's machine is visible to it before
+            // its own code asks for it
+            crate::verif::sim::EAGER_NET.store(true, AO::SeqCst);
             let keep = SharedWorld::new(TestWorld::new_with(&world_config(world_seed, active, read_size, Some(interceptor))));
             // SAFETY: `keep` outlives every use here and each helper task holds its own clone
             let world: &'static TestWorld = unsafe { keep.get() };
@@ -461,6 +464,12 @@ where
         let (bad, rush_stat) = run_rush::<F>(p, &spec, &xs, &ys, sites.clone(), corrupt, batch);
         let mut res = judge_tampered(&bad, &want, corrupt, &sites, need, &field, honest.inv.len(), shape);
         let (replaced, too_early) = (rush_stat / 1000, rush_stat % 1000);
+        // the Fp31 acceptance-rate rule is about blind tampering: runs of this attack are counted apart
+        for k in ["fp31_tamper_delivered", "fp31_tamper_accepted_wrong"] {
+            if let Some(v) = res.probes.remove(k) {
+                res.probe(&format!("rush_{k}"), v);
+            }
+        }
         res.fault("F1a_rushing_check_zero", u64::from(replaced >= 2));
         res.probe(if replaced >= 2 { "rush_window_open" } else { "rush_no_opportunity" }, 1);
         res.probe("rush_messages_sent_before_peer_opened", too_early);
